@@ -31,7 +31,7 @@ def make_specs(seed, quick, volume=1):
     (seed, tier, volume)"""
     rnd = np.random.Generator(np.random.PCG64(seed * 7919 + (0 if quick else 1) + 97 * volume))
     specs, rot = [], int(rnd.integers(0, len(LME_GRID)))
-    reps = {"1qubit": 4, "1qutrit": 1} if quick else {"1qubit": 12, "1qutrit": 3, "2qubit": 1}
+    reps = {"1qubit": 4, "1qutrit": 1} if quick else {"1qubit": 16, "1qutrit": 4, "2qubit": 1}
     salt = 0
     for sysname, nrep in reps.items():
         for rep in range(nrep * volume):
@@ -113,8 +113,9 @@ def eval_spec(spec):
     def cnt(k):
         out["counts"][k] = out["counts"].get(k, 0) + 1
 
-    def viol(sig, what, est):
-        out["viol"].append({"signature": sig, "what": what, "replay": {"kind": "cell", "spec": dict(spec, ests=[list(est)])}})
+    def viol(sig, what, est, seq=False):
+        rs = dict(spec, ests=[], seq_ests=[list(est)]) if seq else dict(spec, ests=[list(est)], seq_ests=[])
+        out["viol"].append({"signature": sig, "what": what, "replay": {"kind": "cell", "spec": rs}})
 
     g, qt, c, m, true, empi = setup(spec)
     tol_eq, tol_ineq = tolerances(spec, m)
@@ -123,13 +124,17 @@ def eval_spec(spec):
     cnt(f"cell {spec['sys']} {kind} para={spec['para']} data={data}")
     zeros = sum(int((p == 0).sum()) for _, p in empi)
     cnt("data with empty outcomes" if zeros else "data without empty outcomes")
-    for est in spec["ests"]:
+    for est in [tuple(e) for e in spec["ests"]]:
         name = est_name(est)
         fam = "ple" if est[0] == "ple" else est[2]
         try:
             obj, var, r, msg = run_est(qt, empi, est)
         except Exception as e:  # noqa
-            viol(f"C10/{fam}/{kind}/raises", f"{name} on {spec['sys']} {kind} {data}: {type(e).__name__}: {e}", est)
+            key = "-".join("".join(ch if ch.isalnum() else " " for ch in str(e)).split()[:4]).lower()
+            lk = "ple" if est[0] == "ple" else ("relative-entropy" if est[1] in ("re", "fre") else "squared-error")
+            viol(f"C10/{fam}/raises/{type(e).__name__}:{key}/{lk}",
+                 f"{name} on {spec['sys']} {kind} para={spec['para']} {data}: {type(e).__name__}: {str(e)[:300]}", est)
+            cnt(f"raises {type(e).__name__}:{key}")
             continue
         cnt(f"estimator {fam}")
         if "iterations exceeds" in msg:
@@ -184,6 +189,34 @@ def eval_spec(spec):
                     viol(f"C10/pgdb/{kind}/iterate-infeasible",
                          f"{name}: iterate {i}/{len(xs) - 1} eq defect {e2:.2e} min eig {m2:.2e}", est)
                     break
+    # --- a sequence of data sets is estimated element by element (same estimator objects reused across the sequence)
+    if data == "few" and spec["sys"] == "1qubit" and kind != "qmpt":
+        empi2 = L.fewshot_data(g, qt, true, max(1, spec["shots"] // 2 + 1))
+        for est in [tuple(e) for e in spec.get("seq_ests", spec["ests"][1:3])]:
+            name = est_name(est)
+            fam = "ple" if est[0] == "ple" else est[2]
+            try:
+                if est[0] == "ple":
+                    e = L.ProjectedLinearEstimator(mode_proj_order=est[1])
+                    rs, _ = L.quiet(e.calc_estimate_sequence, qt, [empi, empi2, empi])
+                    singles = [np.array(L.run_ple(qt, d, est[1])[0].estimated_var) for d in (empi, empi2)]
+                else:
+                    Lc, LOc = L.LOSSES[est[1]]
+                    Ac, AOc = L.ALGOS[est[2]]
+                    e = L.LossMinimizationEstimator()
+                    rs, _ = L.quiet(e.calc_estimate_sequence, qt, [empi, empi2, empi], Lc(qt.num_variables), LOc("identity"),
+                                    Ac(), AOc(mode_proj_order=est[3]))
+                    singles = [np.array(L.run_lme(qt, d, est[1], est[2], history=False, mode_proj_order=est[3])[0].estimated_var)
+                               for d in (empi, empi2)]
+                seq = [np.array(v) for v in rs.estimated_var_sequence]
+                cnt("sequence runs")
+                if len(seq) != 3 or not (np.allclose(seq[0], singles[0], rtol=0, atol=1e-9) and
+                                         np.allclose(seq[1], singles[1], rtol=0, atol=1e-9) and
+                                         np.allclose(seq[2], singles[0], rtol=0, atol=1e-9)):
+                    viol(f"C10/{fam}/{kind}/sequence-differs-from-single",
+                         f"{name}: calc_estimate_sequence([a, b, a]) differs from the separate estimates of a and b", est, seq=True)
+            except Exception as ex:  # noqa
+                viol(f"C10/{fam}/raises/{type(ex).__name__}:sequence/{kind}", f"{name}: sequence run: {type(ex).__name__}: {str(ex)[:200]}", est, seq=True)
     out["t"] = time.time() - out["t"]
     return out
 
